@@ -217,7 +217,8 @@ pub fn judge_for(check: &dyn Check, plan: &Plan, out: &Outcome) -> (Vec<Violatio
     let mut mine = Vec::new();
     let mut other = Vec::new();
     for v in vs {
-        if check.owns(v.rule) {
+        // a run that never ends is every property's business (like a process-level death)
+        if check.owns(v.rule) || v.rule == "wedged" {
             mine.push(v);
         } else {
             other.push(v);
@@ -278,6 +279,7 @@ pub fn plan_sig(plan: &Plan) -> u64 {
             (FaultAt::Op(k), FaultKind::ZeroWrite) => 300 + k * 16,
             (FaultAt::ClientByte(k), _) => 400 + k * 16,
             (FaultAt::Read(k), _) => 500 + k * 16,
+            (FaultAt::Flush(k), _) => 600 + k * 16,
         } ^ ((f.persistent as u64) << 60));
     }
     parts.push(plan.mutations.len() as u64 ^ ((plan.raw_client.as_ref().map(|b| b.len()).unwrap_or(0) as u64) << 8));
@@ -546,8 +548,11 @@ fn probes(plan: &Plan, out: &Outcome, st: &mut Stats) {
                 }
                 reads_since_cb = 0;
             }
+            Ev::ReadErr { kind, .. } if *kind == IoKind::Interrupted => st.bump("fault.read_interrupted", 1),
             Ev::ReadErr { .. } => st.bump("fault.read_err", 1),
             Ev::WriteErr { kind, .. } if *kind != IoKind::Interrupted => st.bump("fault.write_err", 1),
+            Ev::WriteErr { .. } => st.bump("fault.write_interrupted", 1),
+            Ev::FlushErr { kind, .. } if *kind == IoKind::Interrupted => st.bump("fault.flush_interrupted", 1),
             Ev::FlushErr { .. } => st.bump("fault.flush_err", 1),
             Ev::Stall { .. } => st.bump("probe.stall", 1),
             _ => {}
